@@ -198,6 +198,42 @@ var c18Inputs struct {
 	zipBOM16   []byte // agency.txt is UTF-16LE with a byte order mark
 }
 
+// c18Large: a well-formed archive of 1030 rows per table in which one trip id is listed twice in
+// trips.txt (rows 2 and 5) and every trip's stop times are listed last-first (built once: sizes
+// at which a parser might split its work over goroutines of its own).
+var c18LargeCache []byte
+
+func c18Large() []byte {
+	if c18LargeCache == nil {
+		k := 1030
+		n := staticCounts{agencies: 3, routes: 9, stops: 65, transfers: 9, calendars: 5, calendarDates: 9, shapes: 9, shapePoints: 3, trips: k, frequencies: 9, stopTimes: 2 * k}
+		m := genStaticFeedN(&Ctx{}, false, n, nil, nil)
+		tr := m.t("trips.txt")
+		dup, _ := tr.get(2, "trip_id")
+		tr.set(5, "trip_id", dup)
+		st := m.t("stop_times.txt")
+		for i, j := 0, len(st.Rows)-1; i < j; i, j = i+1, j-1 {
+			st.Rows[i], st.Rows[j] = st.Rows[j], st.Rows[i]
+		}
+		c18LargeCache = renderFeed(m, presentation{})
+	}
+	return c18LargeCache
+}
+
+// c18EmptyMember: an archive in which the named member has no bytes at all (rejected).
+func c18EmptyMember(file string) []byte {
+	m := genStaticFeedN(&Ctx{}, false, baseCounts, nil, nil)
+	var members []rawMember
+	for _, t := range m.Tables {
+		content := renderCSV(t, presentation{})
+		if t.File == file {
+			content = nil
+		}
+		members = append(members, rawMember{t.File, content})
+	}
+	return buildZip(members, false)
+}
+
 var c18Salt int
 
 // c18Init builds the inputs of one execution. Dates and ids are salted with a per-process
@@ -360,7 +396,7 @@ func init() {
 	register(&Check{
 		ID:    "C18",
 		Level: "model_checking",
-		Rule: "threads = parse calls (each followed by hashing and walking its own result) sharing input buffers and one options value; scenarios: realtime||realtime on the same buffer (a valid one; a rejected one: HTML + half a feed), on two copies of a feed of NYCT oddities (assigned trips without train id, updates without stop id) and on two different feeds (elevator feeds that share groups for nyctalerts), static||static on the same archive (known and never-seen unknown agency zone; members with UTF-8 / UTF-16 byte order marks), static||realtime, journal+CSV export||journal+CSV export, for 7 configurations (nil Extension with and without Timezone, no-op, nycttrips and nyctalerts behind a yielding proxy, nycttrips and nyctalerts unwrapped with the default zone); thorough adds 3-thread scenarios; every interleaving at the scheduling points (extension method calls + per-entity / per-file hooks) with <= 2 preemptions (thorough <= 4; <= 2 for three threads), each executed under -race with a hand-off the detector cannot see; " +
+		Rule: "threads = parse calls (each followed by hashing and walking its own result) sharing input buffers and one options value; scenarios: realtime||realtime on the same buffer (a valid one; a rejected one: HTML + half a feed), on two copies of a feed of NYCT oddities (assigned trips without train id, updates without stop id) and on two different feeds (elevator feeds that share groups for nyctalerts), static||static on the same archive (known and never-seen unknown agency zone; members with UTF-8 / UTF-16 byte order marks; an archive of 1030 trips with a duplicate trip id, alone and twice; two archives rejected for an empty member of different names), static||realtime, journal+CSV export||journal+CSV export, for 7 configurations (nil Extension with and without Timezone, no-op, nycttrips and nyctalerts behind a yielding proxy, nycttrips and nyctalerts unwrapped with the default zone); thorough adds 3-thread scenarios; every interleaving at the scheduling points (extension method calls + per-entity / per-file hooks) with <= 2 preemptions (thorough <= 4; <= 2 for three threads), each executed under -race with a hand-off the detector cannot see; " +
 			"non-trivial = distinct schedules in which both threads ran between points; oracle = zero race reports (runtime.RaceErrors per schedule) and every call's dump equal to its solo dump",
 		Assumptions: []string{"the Go race detector is trusted (no false positives; bounded shadow history)", "synchronisation inside the standard library / protobuf (sync.Pool, sync.Once) creates real happens-before edges that can hide a conflict in one schedule; the explored preemptions move the calls relative to those edges", "exhaustive over schedules at the listed points within the preemption bound, and over memory for the executed paths; not over inputs"},
 		Scenarios: func(tier string) []*Scenario {
@@ -380,10 +416,10 @@ func init() {
 						return []c18Call{rtCall("ParseRealtime(mixed)", c18Inputs.feeds[5]), rtCall("ParseRealtime(mixed)", c18Inputs.feeds[5])}
 					})},
 					&Scenario{Name: "rt-rejected-buffer/" + cfg.name, Bound: k, Run: c18Harness(cfg, func() []c18Call {
-					// the same unparseable buffer (an HTML error page followed by half a feed) handed to two calls, and to a valid one's neighbour
-					bad := append([]byte("<html><head><title>503 Service Temporarily Unavailable</title></head><body>try again later</body></html>"), c18Inputs.feeds[3][:len(c18Inputs.feeds[3])/2]...)
-					return []c18Call{rtCall("A(rejected buffer)", bad), rtCall("B(same buffer)", bad)}
-				})},
+						// the same unparseable buffer (an HTML error page followed by half a feed) handed to two calls, and to a valid one's neighbour
+						bad := append([]byte("<html><head><title>503 Service Temporarily Unavailable</title></head><body>try again later</body></html>"), c18Inputs.feeds[3][:len(c18Inputs.feeds[3])/2]...)
+						return []c18Call{rtCall("A(rejected buffer)", bad), rtCall("B(same buffer)", bad)}
+					})},
 					&Scenario{Name: "rt-nyct-oddities/" + cfg.name, Bound: k, Run: c18Harness(cfg, func() []c18Call {
 						// assigned trips without train id, updates without stop ids: each call on its own copy
 						return []c18Call{rtCall("ParseRealtime(oddities)", c18Inputs.feeds[6]), rtCall("ParseRealtime(copy of oddities)", append([]byte(nil), c18Inputs.feeds[6]...))}
@@ -404,15 +440,25 @@ func init() {
 					return []c18Call{staticCall("ParseStatic(z)", c18Inputs.zip), staticCall("ParseStatic(z)", c18Inputs.zip)}
 				})},
 				&Scenario{Name: "static-unknown-timezone", Bound: k, Run: c18Harness(c18Configs[1], func() []c18Call {
-				return []c18Call{staticCall("ParseStatic(z, unknown agency zone)", c18Inputs.zipUnknown), staticCall("ParseStatic(z, unknown agency zone)", c18Inputs.zipUnknown)}
-			})},
-			&Scenario{Name: "static-with-byte-order-marks", Bound: k, Run: c18Harness(c18Configs[1], func() []c18Call {
-				return []c18Call{staticCall("ParseStatic(z, UTF-8 BOM)", c18Inputs.zipBOM), staticCall("ParseStatic(z, UTF-16 BOM)", c18Inputs.zipBOM16)}
-			})},
-			&Scenario{Name: "journal-and-export", Bound: k, Run: c18Harness(c18Configs[2], func() []c18Call {
-				return []c18Call{journalCall("journal+export(feed3)", c18Inputs.feeds[3]), journalCall("journal+export(feed5)", c18Inputs.feeds[5])}
-			})},
-			&Scenario{Name: "static-and-realtime", Bound: k, Run: c18Harness(c18Configs[2], func() []c18Call {
+					return []c18Call{staticCall("ParseStatic(z, unknown agency zone)", c18Inputs.zipUnknown), staticCall("ParseStatic(z, unknown agency zone)", c18Inputs.zipUnknown)}
+				})},
+				&Scenario{Name: "static-with-byte-order-marks", Bound: k, Run: c18Harness(c18Configs[1], func() []c18Call {
+					return []c18Call{staticCall("ParseStatic(z, UTF-8 BOM)", c18Inputs.zipBOM), staticCall("ParseStatic(z, UTF-16 BOM)", c18Inputs.zipBOM16)}
+				})},
+				&Scenario{Name: "static-large-archive", Bound: 1, Run: c18Harness(c18Configs[1], func() []c18Call {
+					return []c18Call{staticCall("ParseStatic(1030 trips, one id twice)", c18Large())}
+				})},
+				&Scenario{Name: "static-large-archive-twice", Bound: 1, Run: c18Harness(c18Configs[1], func() []c18Call {
+					return []c18Call{staticCall("ParseStatic(large)", c18Large()), staticCall("ParseStatic(large)", c18Large())}
+				})},
+				&Scenario{Name: "static-rejected-archives", Bound: k, Run: c18Harness(c18Configs[1], func() []c18Call {
+					// two archives rejected for the same reason in different members: each call's error is its own
+					return []c18Call{staticCall("ParseStatic(agency.txt empty)", c18EmptyMember("agency.txt")), staticCall("ParseStatic(routes.txt empty)", c18EmptyMember("routes.txt"))}
+				})},
+				&Scenario{Name: "journal-and-export", Bound: k, Run: c18Harness(c18Configs[2], func() []c18Call {
+					return []c18Call{journalCall("journal+export(feed3)", c18Inputs.feeds[3]), journalCall("journal+export(feed5)", c18Inputs.feeds[5])}
+				})},
+				&Scenario{Name: "static-and-realtime", Bound: k, Run: c18Harness(c18Configs[2], func() []c18Call {
 					return []c18Call{staticCall("ParseStatic(z)", c18Inputs.zip), rtCall("ParseRealtime(mixed)", c18Inputs.feeds[5])}
 				})},
 			)
